@@ -98,11 +98,18 @@ func Persisted(idx bleve.Index, max time.Duration) bool {
 	}
 }
 
-// NoMergePlan / AggressiveMergePlan are scorchMergePlanOptions values.
+// Merge-plan presets (scorchMergePlanOptions), each verified empirically by the layouts they produce
+// (see DESIGN.md §9.3): the planner treats every segment below FloorSegmentSize (default 2000 documents)
+// as belonging to the floor tier and merges them eagerly, so the DEFAULT options already merge after
+// every small batch; lowering FloorSegmentSize to 1 is what stops merging.
+//
+// NoMergePlan: never merges (segments accumulate on disk).
 var NoMergePlan = map[string]interface{}{"MaxSegmentsPerTier": 1000, "SegmentsPerMergeTask": 2, "TierGrowth": 1.0, "FloorSegmentSize": 1, "MaxSegmentSize": 1000000, "ReclaimDeletesWeight": 0.0}
-var AggressiveMergePlan = map[string]interface{}{"MaxSegmentsPerTier": 1, "SegmentsPerMergeTask": 2, "TierGrowth": 2.0, "FloorSegmentSize": 1, "MaxSegmentSize": 1000000, "ReclaimDeletesWeight": 2.0}
 
-// PartialMergePlan merges small segments eagerly but leaves every segment with >= 2 live documents
-// alone (MaxSegmentSize 4: a segment with at least half of that live is not eligible), so that merges
-// are introduced next to kept segments that carry obsoleted documents.
-var PartialMergePlan = map[string]interface{}{"MaxSegmentsPerTier": 1, "SegmentsPerMergeTask": 2, "TierGrowth": 2.0, "FloorSegmentSize": 1, "MaxSegmentSize": 4, "ReclaimDeletesWeight": 2.0}
+// AggressiveMergePlan: a file merge after every batch, two segments per task, down to one segment.
+var AggressiveMergePlan = map[string]interface{}{"MaxSegmentsPerTier": 1, "SegmentsPerMergeTask": 2}
+
+// PartialMergePlan: small segments merge after every batch, but a segment with >= 2 live documents
+// (half of MaxSegmentSize 4) is not eligible and stays — merges are introduced next to kept segments
+// that carry obsoleted documents.
+var PartialMergePlan = map[string]interface{}{"MaxSegmentSize": 4}
